@@ -155,7 +155,7 @@ def describe(segment, first_bad):
                 why.append("tasks %s were already passed to execute" % [t for t in b if t in seen])
             if [t for t in b if t not in size]:
                 why.append("tasks %s were never added" % [t for t in b if t not in size])
-            if conf["kind"] == "bulk" and len(b) > conf["max"]:
+            if conf["kind"] in ("bulk", "inserter") and len(b) > conf["max"]:
                 why.append("%d tasks in a batch, configured maximum %d" % (len(b), conf["max"]))
             if conf["kind"] == "chunk" and b and all(t in size for t in b) and sum(size[t] for t in b) - size[b[-1]] >= conf["max"]:
                 why.append("batch of %d bytes already held %d >= limit %d before its last task" % (
@@ -172,6 +172,9 @@ def describe(segment, first_bad):
             return (" [calls that never returned although ticks and clock jumps were kept going for %d ms: %s; tasks added but never "
                     "executed: %s; the specification (deadlock freedom, a flusher alive while work is pending) has no such behaviour]"
                     "\ngoroutines at the end of the grace period:\n%s" % (bad.get("grace_ms", 0), calls or "none", bad.get("unexecuted"), stacks))
+        if bad.get("e") == "threshold-no-flush":
+            return (" [one caller inserted exactly %d rows into a fresh inserter and called nothing else; in %d attempts no INSERT was "
+                    "executed before the first tick became due: reaching the size threshold did not flush]" % (bad.get("rows", 0), bad.get("attempts", 0)))
         if bad.get("e") == "quiesce":
             return " [at quiescence (all callers returned, final Wait returned, flusher retired) some added task was not executed exactly once]"
         if bad.get("e") != "wret":
@@ -239,25 +242,29 @@ def run(ctx):
         cplans = [("inserter", 8, 4, 0), ("metrics", 10, 2, 0)] if ctx.quick else \
                  [("inserter", 100, 4, 0), ("inserter", 100, 1, 1), ("inserter", 60, 16, 2),
                   ("metrics", 150, 4, 0), ("metrics", 150, 1, 1), ("metrics", 100, 16, 2)]
-        bins, raced = {}, False
+        bins = {}
         for kind, rounds, gmp, shard in cplans:
             c = CLIENTS[kind]
             if kind not in bins:
                 bins[kind] = ctx.go_build(c["pkg"], c["overlay"], race=True, name="c16" + kind)
             path = record(ctx, bins[kind], "%s-g%d-%d" % (kind, gmp, shard), rounds, gmp, shard, test=c["test"], pkgdir=c["dir"])
             if path is None:
-                raced = True
                 continue
             validate(ctx, path, "trace-%s-%d" % (kind, shard))
             if ctx.counters.get("rec.hangs", 0):
                 break
-        for k in ("rec.hist_inserter", "rec.hist_metrics", "rec.tick_flushes", "rec.threshold_batches", "rec.exec_failures"):
-            if not raced and not ctx.counters.get("rec.hangs", 0) and ctx.counters.get(k, 0) == 0:
-                raise core.Infra("vacuous recording: counter %s is 0" % k)
-    if not ctx.quick and not ctx.counters.get("rec.hangs", 0):
-        for k in ("rec.flusher_stops", "rec.hist_handover", "rec.hist_quitrace", "rec.hist_bulk", "rec.hist_chunk", "rec.takes_nonempty", "rec.waits"):
-            if ctx.counters.get(k, 0) == 0:
-                raise core.Infra("vacuous recording: counter %s is 0" % k)
+    # Vacuity guards come AFTER the verdict: a counter that stayed 0 because the code under test behaves differently
+    # (e.g. no batch of exactly 1000 rows because the threshold moved) is a behavioural difference that the acceptor
+    # reports; the guards only protect a run in which nothing was found.
+    if not ctx.disagreements:
+        need = ["rec.hist_bulk", "rec.hist_chunk", "rec.hist_per", "rec.takes_nonempty", "rec.waits", "rec.flusher_stops",
+                "rec.hist_inserter", "rec.hist_metrics", "rec.tick_flushes", "rec.threshold_batches", "rec.thr_checked",
+                "rec.exec_failures"]
+        if not ctx.quick:
+            need += ["rec.hist_handover", "rec.hist_quitrace"]
+        missing = [k for k in need if ctx.counters.get(k, 0) == 0]
+        if missing:
+            raise core.Infra("vacuous recording: counters %s are 0" % missing)
     ctx.assumptions += [
         "container events (add/take) are emitted while the executor holds pe.lock; inv before a call, ret after it returned; "
         "xb/xe from inside the execute callback",
